@@ -175,6 +175,96 @@ def novel_keys_copied(oo: ast.AST):
     return False, oo, "no copy of the keys that only the higher layer defines was found"
 
 
+MODE_FLAGS = ("ignore_errors", "is_primitive", "use_symbol_table", "in_place", "raw")
+
+
+def check_flags_through_recursion(ctx, fl) -> None:
+    """A resolver that walks nested containers calls itself for the children.  The mode flags of the call (strict / lenient, primitive ..)
+    must reach the children unchanged: each self-recursive call binds a flag parameter - by keyword or by POSITION, resolved against the
+    signature - to the caller's parameter of the same name, and fill_in (the entry of every strict query) binds both of its flags."""
+    RID = "C04.R13-strictness-passes-through-recursion"
+    n = 0
+    for q, f in sorted(fl.functions.items()):
+        name = q.split(".")[-1]
+        params = [a.arg for a in f.args.args]
+        flags = [p_ for p_ in params if p_ in MODE_FLAGS]
+        if not flags:
+            continue
+        for c in source.calls_in(f, include_nested=False):
+            is_self = (isinstance(c.func, ast.Name) and c.func.id == name) or (
+                isinstance(c.func, ast.Attribute) and c.func.attr == name and isinstance(c.func.value, ast.Name)
+                and c.func.value.id in ("cls", "self", q.split(".")[0]))
+            if not is_self:
+                continue
+            ps = params[1:] if params and params[0] in ("cls", "self") and isinstance(c.func, ast.Attribute) else params
+            bound = {}
+            for i, a in enumerate(c.args):
+                if i < len(ps) and not isinstance(a, ast.Starred):
+                    bound[ps[i]] = a
+            for k in c.keywords:
+                if k.arg:
+                    bound[k.arg] = k.value
+            ctx.analysed(f)
+            for fl_ in flags:
+                if fl_ not in bound:
+                    if name == "fill_in":
+                        n += 1
+                        ctx.ob(RID, c, False, "the recursive call of fill_in does not pass %s on: the children are resolved in the default mode whatever "
+                               "the caller asked for" % fl_, construct="%s: recursive call <- %s" % (name, fl_))
+                    continue
+                n += 1
+                v = bound[fl_]
+                ok = isinstance(v, ast.Name) and v.id == fl_
+                ctx.ob(RID, c, ok, "%s reaches the children unchanged" % fl_ if ok else
+                       "the recursive call of %s binds %s to %s (arguments are matched against the signature %s): below this point the mode is no "
+                       "longer the caller's - with a label string bound to ignore_errors every 'ignore_errors is False' test fails, an undefined "
+                       "variable inside a list-valued option (references, executors, shutdownOn ..) is swallowed and '%%(name)s' stays in the "
+                       "resolved configuration" % (name, fl_, short(v, 30), "(%s)" % ", ".join(ps)), construct="%s: recursive call <- %s" % (name, fl_))
+    ctx.floor(RID, n, 4, "mode flags bound by self-recursive calls of the resolvers in flowir.py")
+
+
+def check_scopes_unshared(ctx, fl) -> None:
+    """The setters write through variables[<platform>]['global'] and variables[<platform>]['stages'][<n>].  A document may give two
+    scopes the SAME dictionary object (YAML anchors; deep copies keep the sharing), so the loader rebinds every scope dictionary to a
+    fresh one: `<scope> = dict(<scope>)` for the global scope of each platform and for each stage of each platform."""
+    RID = "C04.R14-one-dictionary-per-variable-scope"
+    idv = fl.func("FlowIR.inject_default_values")
+    ctx.analysed(idv)
+
+    def label(e: ast.AST) -> Optional[str]:
+        t = (dotted(e) or "").split(".")[-1] if not isinstance(e, ast.Constant) else str(e.value)
+        return {"LabelGlobal": "global", "global": "global", "LabelStages": "stages", "stages": "stages"}.get(t)
+
+    def fresh_of(v: ast.AST) -> Optional[ast.AST]:
+        if isinstance(v, ast.Call) and (call_name(v) or "").split(".")[-1] in ("dict", "copy", "deepcopy", "deep_copy") and len(v.args) == 1:
+            return v.args[0]
+        return None
+    rebinds = [a for a in source.walk_own(idv) if isinstance(a, ast.Assign) and len(a.targets) == 1 and isinstance(a.targets[0], ast.Subscript)
+               and fresh_of(a.value) is not None and source.src(fresh_of(a.value)) == source.src(a.targets[0])
+               and any(isinstance(x, ast.For) for x in source.ancestors(a))]
+    glob = [a for a in rebinds if label(a.targets[0].slice) == "global"]
+    # a stage entry: <T>[<k>] = dict(<T>[<k>]) with k the variable of a loop over T, T being (a copy of) <..>[stages]
+    stage = []
+    for a in rebinds:
+        t = a.targets[0]
+        if not isinstance(t.slice, ast.Name):
+            continue
+        loops = [x for x in source.ancestors(a) if isinstance(x, ast.For) and isinstance(x.target, ast.Name) and x.target.id == t.slice.id]
+        if not loops:
+            continue
+        cont = t.value
+        srcs = [cont] + ([v for v in match.assigned_value(idv, cont.id)] if isinstance(cont, ast.Name) else [])
+        if any(isinstance(y, ast.Subscript) and label(y.slice) == "stages" for v in srcs for y in ast.walk(v)):
+            stage.append(a)
+    for kind, found in (("global", glob), ("stage", stage)):
+        ok = bool(found)
+        ctx.ob(RID, found[0] if found else idv, ok,
+               "every platform's %s variables are rebound to a dictionary of their own when the description is loaded" % kind if ok else
+               "the loader does not give every %s scope a dictionary of its own: two scopes that share one object (YAML anchors: 'stages: {0: &s "
+               "{..}, 1: *s}') both change when a variable of one of them is set - user variables supplied for stage 0 also apply to stage 1" % kind,
+               construct="inject_default_values: <%s scope> = dict(<%s scope>)" % (kind, kind))
+
+
 def check_scope_per_item(ctx, fl, rule: str, consequence: str, funcs=("FlowIRConcrete.instance",)) -> int:
     """A dictionary that is used as the substitution scope (context= of fill_in / interpolate) inside a loop AND receives the loop
     item's own variables through .update() must be bound afresh inside that loop's body: every definition that reaches the update
@@ -301,6 +391,12 @@ def run(ctx) -> None:
     ctx.rule("C04.R12-scope-per-component", "in FlowIRConcrete.instance the dictionary that serves as substitution scope for a component (context= of "
              "fill_in / interpolate) and receives that component's variables is created inside the loop over the components: a scope built "
              "once per stage and updated per component carries one component's variables into the components visited after it")
+    ctx.rule("C04.R13-strictness-passes-through-recursion", "a self-recursive call of a resolver (fill_in, interpolate, replace_strings ..) binds each mode "
+             "flag of the signature (ignore_errors, is_primitive, use_symbol_table, in_place, raw) - matched by keyword or position - to the "
+             "caller's parameter of the same name; fill_in binds both of its flags in every recursive call")
+    ctx.rule("C04.R14-one-dictionary-per-variable-scope", "the loader (inject_default_values) rebinds the global variables of every platform and every "
+             "stage's variables of every platform to a fresh dictionary, so that the setters - which write through these dictionaries - change "
+             "one scope only even when the document made several scopes share one object")
     ctx.rule("C04.R9-flattened-description-keeps-the-order", "the configuration is loaded through FlowIRConcrete.instance()/replicate(), a second "
              "implementation of the variable layering: for every way a name can be defined in the default/platform x global/stage "
              "scopes it lets the same scope win as the live resolver get_component_variables (LAYER engine, shared with C07.R7)")
@@ -313,6 +409,8 @@ def run(ctx) -> None:
 
     m = ctx.repo.module(FLOWIR)
     check_platform_threaded(ctx, m)
+    check_flags_through_recursion(ctx, m)
+    check_scopes_unshared(ctx, m)
     n12 = check_scope_per_item(ctx, m, "C04.R12-scope-per-component",
                                "a component-level variable that shadows a global or stage variable leaks into the sibling components visited after it - their "
                                "references resolve to the sibling's value instead of the layered one")
